@@ -188,3 +188,21 @@ pub fn statics(tcx: TyCtxt<'_>) -> J {
     }
     J::Arr(out)
 }
+
+/// Every trait impl written in the crate (marker impls included, which have no methods and so no body facts).
+pub fn trait_impls(tcx: TyCtxt<'_>) -> J {
+    let mut out = Vec::new();
+    for (trait_did, impls) in tcx.all_local_trait_impls(()).iter() {
+        for ldid in impls.iter() {
+            let did = ldid.to_def_id();
+            let self_ty = tcx.type_of(did).instantiate_identity().skip_norm_wip();
+            let (file, lo, _) = crate::mirdump::span_loc(tcx, tcx.def_span(did));
+            let nitems = tcx.associated_item_def_ids(did).len();
+            out.push(jobj!(
+                "trait" => J::s(def_str(tcx, *trait_did)), "self_ty" => J::s(ty_str(self_ty)), "items" => J::n(nitems as i128),
+                "file" => J::s(file), "line" => J::n(lo as i128)
+            ));
+        }
+    }
+    J::Arr(out)
+}
